@@ -205,6 +205,15 @@ def run(res, tier):
         res.violation("mir:gate:commit-callers", "ProcessPubPoint::commit is called from %s (expected only accept_point)" % sorted(callers),
                       mprop.write_cex(res, "commit_callers", mir.Path(mir.State(), {}, "static"), E, "callers of commit: %s" % sorted(callers)))
 
+    # the chain ends at a TAL whose key the trust anchor certificate carries (obligation shared with C10)
+    import c10
+    n_ta, _, n_tal_paths = c10.check_tal_task(res, E, 2, only_gating=True)
+    res.functions.append("routinator::engine::Run::process_tal_task with load_ta inlined (MIR; TA key == TAL key and validate_ta before process_ta, 1 URI)")
+    total += n_ta
+    stats["process_tal_task"] = n_tal_paths
+    if not n_ta:
+        res.inconclusive.append("vacuity: no process_ta site on the explored process_tal_task paths")
+
     res.distinct += total
     res.extra["paths"] = stats
     if total < 20:
